@@ -13,4 +13,8 @@ theorem period_generic_env : periodOf "rp2_generic" = some 123 := by decide
 theorem entry_points : countries.map (·.1) = ["rp2_us", "rp2_jp", "rp2_es", "rp2_generic", "rp2_ie"] := by decide
 theorem methods_known : (countries.all fun c => c.2.2.2.2.1.all fun m => ["fifo", "lifo", "hifo", "lofo"].contains m) = true := by decide
 theorem default_method_allowed : (countries.all fun c => c.2.2.2.2.1.contains c.2.2.2.1) = true := by decide
+/-- the generic plugin takes exactly the configured non-negative integer; negative, non-integer and empty values are rejected -/
+theorem generic_period_is_the_configured_value : genericPeriodProbe =
+    [("0", "0"), ("1", "1"), ("365", "365"), ("366", "366"), ("1000000000", "1000000000"), ("-1", "rejected"), ("-365", "rejected"),
+     ("abc", "rejected"), ("1.5", "rejected"), ("", "rejected"), (" 12 ", "12")] := by decide
 end Rp2.Tables
